@@ -298,7 +298,7 @@ def make_r_fmt(disp="vfmt_disp", lit="vfmt_lit", hex2="vfmt_hex2_upper", wmap=No
                         e = rest[ai]
                         ai += 1
                     if s[2] == "":
-                        calls.append("%s(%s, %s);" % (disp, w, e))
+                        calls.append("%s(%s, &(%s));" % (disp, w, e))  # format_args! borrows its arguments
                     elif s[2] == "02X":
                         calls.append("%s(%s, %s);" % (hex2, w, e))
                     else:
@@ -542,11 +542,20 @@ class Unit:
             text = r(text, ctx)
         return text, ctx.apps
 
-    def type_item(self, path, kind, name, rules=(), key=None, opaque_fields=False, props=None, vis_pub=True):
+    def type_item(self, path, kind, name, rules=(), key=None, opaque_fields=False, props=None, vis_pub=True, keep_derive=()):
         src = self.src(path)
         it = rl.find_type(path, src, kind, name)
         raw = it.text
         text, apps = self._apply(raw, [r_attr, r_cfg] + list(rules), key or name)
+        if keep_derive:
+            # re-attach the subset of the item's own derives that Verus understands (must be present in /repo)
+            m = re.search(r"#\[derive\(([^)]*)\)\]", raw)
+            have = set(x.strip() for x in m.group(1).split(",")) if m else set()
+            missing = [d for d in keep_derive if d not in have]
+            if missing:
+                raise LostAnchor("%s %s: derive(%s) not present in /repo" % (kind, name, ", ".join(missing)))
+            text = "#[derive(%s)]\n" % ", ".join(keep_derive) + text
+            apps.append({"rule": "R-attr-keep", "before": "derive(%s)" % ", ".join(sorted(have)), "after": "derive(%s) kept" % ", ".join(keep_derive)})
         self.functions.append({"item": "%s %s" % (kind, name), "file": path, "line": it.line,
                                "sha256": hashlib.sha256(raw.encode()).hexdigest(), "rules": apps, "kind": "type"})
         self.emit(text, kind="type", key=key or name, props=props)
